@@ -16,6 +16,12 @@
   importer_caught         the classes of the `except (...)` clause of exec_module's cache path
   importer_exec_in_try    true iff that `try` body also *executes* the cached code (calls
                           compiler.compile_bytecode, directly or through a method of the class)
+
+Not a table item (it would change Gen/Tables.v for every property): `stats_in_spec_shape(text)`
+reads off importer.py WHO stats the source file -- exec_module at every execution (False, the
+shape C14_reload_sees_current_source is stated for) or find_spec once, kept in the spec's
+loader_state (True, the shape C14_reload_stale_when_stats_in_spec refutes).  It is evaluated by
+the `shape` case of the C14 correspondence on every run.
 """
 import ast
 
@@ -293,6 +299,84 @@ def item_exec_in_try():
     if in_try and after:
         raise Refuse("cached code is executed both inside and after the try")
     return f"Definition importer_exec_in_try : bool := {'true' if in_try else 'false'}.\n"
+
+
+# ---- who stats the source file: exec_module (every execution) or find_spec (once) ------------
+def _is_loader_state(e, key, spec_name="spec"):
+    """spec.loader_state["<key>"]"""
+    return (isinstance(e, ast.Subscript) and isinstance(e.value, ast.Attribute) and e.value.attr == "loader_state"
+            and isinstance(e.value.value, ast.Name) and e.value.value.id == spec_name
+            and isinstance(e.slice, ast.Constant) and e.slice.value == key)
+
+
+def _is_self_path_stats(e, arg):
+    return (isinstance(e, ast.Call) and isinstance(e.func, ast.Attribute) and e.func.attr == "path_stats"
+            and isinstance(e.func.value, ast.Name) and e.func.value.id == "self" and not e.keywords
+            and len(e.args) == 1 and isinstance(e.args[0], ast.Name) and e.args[0].id == arg)
+
+
+def _top_assigns(fn, name):
+    """Assignments to the plain name `name` anywhere in fn; each must be a top-level statement."""
+    tops = [s for s in fn.body if isinstance(s, ast.Assign) and len(s.targets) == 1
+            and isinstance(s.targets[0], ast.Name) and s.targets[0].id == name]
+    stores = [n for n in ast.walk(fn) if isinstance(n, ast.Name) and n.id == name and isinstance(n.ctx, ast.Store)]
+    if len(stores) != len(tops):
+        raise Refuse(f"`{name}` is also bound outside top-level assignments of {fn.name}")
+    return tops
+
+
+def stats_in_spec_shape(text):
+    """False: exec_module does `filename = spec.loader_state["filename"]; path_stats =
+    self.path_stats(filename)` itself and that value validates the cache and goes into
+    every new cache file.  True: `path_stats = spec.loader_state["path_stats"]`, a key that
+    find_spec fills with self.path_stats(filename).  Anything else: Refuse."""
+    t = ast.parse(text)
+    ps = _find_class_fn(t, "BasilispImporter", "path_stats")
+    if [a.arg for a in ps.args.args] != ["self", "path"] or _body_text(ps) != \
+            "stat = os.stat(path)\nreturn {'mtime': int(stat.st_mtime), 'size': stat.st_size}":
+        raise Refuse("path_stats is not os.stat(path) -> {mtime: int(st_mtime), size: st_size}")
+    fn = _find_class_fn(t, "BasilispImporter", "exec_module")
+    assigns = _top_assigns(fn, "path_stats")
+    if len(assigns) != 1:
+        raise Refuse(f"exec_module assigns path_stats {len(assigns)} times")
+    val = assigns[0].value
+    # its uses: validation of the cache, and every from-source execution
+    gets = [c for c in _calls(fn.body) if isinstance(c.func, ast.Name) and c.func.id == "_get_basilisp_bytecode"]
+    if len(gets) != 1 or len(gets[0].args) != 4 or gets[0].keywords \
+            or ast.unparse(gets[0].args[1]) != "path_stats['mtime']" or ast.unparse(gets[0].args[2]) != "path_stats['size']":
+        raise Refuse("exec_module does not validate the cache with path_stats['mtime'], path_stats['size']")
+    execs = [c for c in _calls(fn.body) if isinstance(c.func, ast.Attribute) and c.func.attr == "_exec_module"]
+    if not execs or any(len(c.args) != 4 or c.keywords or ast.unparse(c.args[2]) != "path_stats" for c in execs):
+        raise Refuse("a from-source execution does not receive path_stats")
+    ex = _find_class_fn(t, "BasilispImporter", "_exec_module")
+    if [a.arg for a in ex.args.args] != ["self", "fullname", "loader_state", "path_stats", "module"]:
+        raise Refuse("_exec_module parameters changed")
+    writes = [c for c in _calls(ex.body) if isinstance(c.func, ast.Name) and c.func.id == "_basilisp_bytecode"]
+    if len(writes) != 1 or [ast.unparse(a) for a in writes[0].args[:2]] != ["path_stats['mtime']", "path_stats['size']"]:
+        raise Refuse("_exec_module does not write the cache header from path_stats")
+    if _top_assigns(ex, "path_stats"):
+        raise Refuse("_exec_module rebinds path_stats")
+    fs = _find_class_fn(t, "BasilispImporter", "find_spec")
+    state_keys = {}
+    for n in ast.walk(fs):
+        if isinstance(n, ast.Dict) and any(isinstance(k, ast.Constant) and k.value == "cache_filename" for k in n.keys):
+            for k, v in zip(n.keys, n.values):
+                if not isinstance(k, ast.Constant):
+                    raise Refuse("loader_state with a computed key")
+                state_keys[k.value] = v
+    if not state_keys:
+        raise Refuse("the loader_state dict of find_spec was not found")
+    if _is_self_path_stats(val, "filename"):
+        fa = _top_assigns(fn, "filename")
+        if len(fa) != 1 or not _is_loader_state(fa[0].value, "filename") or fa[0].lineno > assigns[0].lineno:
+            raise Refuse("exec_module stats something else than spec.loader_state['filename']")
+        return False
+    if _is_loader_state(val, "path_stats"):
+        if "path_stats" not in state_keys or not _is_self_path_stats(state_keys["path_stats"], "filename"):
+            raise Refuse("loader_state['path_stats'] is not filled by find_spec with self.path_stats(filename)")
+        return True
+    raise Refuse("path_stats of exec_module is neither self.path_stats(filename) nor spec.loader_state['path_stats']: "
+                 + ast.unparse(val)[:80])
 
 
 ITEMS = [
